@@ -2,6 +2,7 @@ import Aiortc.Lemmas.NegotiateCodecs
 import Aiortc.Lemmas.NegotiatePc
 import Aiortc.Lemmas.NegotiateExchange
 import Aiortc.Lemmas.NegotiateFresh
+import Aiortc.Lemmas.C03.CompatCommon
 /-!
 # C03 — offer/answer yields a consistent, connectable session for every configuration
 
@@ -322,7 +323,7 @@ theorem exchange_sections {o a : Pc} {ex : Exchange} (h : negotiate o a = .ok ex
   obtain ⟨g, hg, hmap⟩ := applyBundle_transceivers hb
   have hoff : ex.offerer.transceivers = pc1.transceivers.map g := by rw [hA haty]; exact hmap
   refine ⟨e_kind, e_mid, ?_, ?_, ?_, ?_, ?_⟩
-  · rw [hs0sa]; simp only; rw [hcod0]; exact hN.codecs
+  · rw [hs0sa]; simp only; rw [hcod0]; exact ⟨_, hN.codecs⟩
   · rw [hs0sa]; simp only; rw [hcod0]; exact hN.nonempty
   · rw [hs0sa]; simp only; rw [hext0]; exact hN.exts
   · refine ⟨{ t with currentDirection := some (andDir t.direction (revDir so.direction)) },
@@ -339,7 +340,7 @@ theorem exchange_sections {o a : Pc} {ex : Exchange} (h : negotiate o a = .ok ex
 directions, tracks, codec preferences, data channel, bundle policy — but no exchange yet) and ANY answerer that has not
 negotiated its transceivers yet: if the exchange goes through, every media section of the answer and the final
 directions on both sides are as `SectionOutcome` says.  (That the exchange does go through when every section has a
-common codec is NOT proved; see `exchange_succeeds` below.) -/
+common codec is proved in `exchange_succeeds` below, for every well-formed pair.) -/
 theorem first_exchange_sections {o a : Pc} {ex : Exchange} (hf : FreshPc o) (hun : Unnegotiated a.transceivers)
     (h : negotiate o a = .ok ex) :
     ∀ (j : Nat) (so sa : MSec), ex.offer.media[j]? = some so → ex.answer.media[j]? = some sa → so.kind.isMedia = true →
@@ -357,16 +358,67 @@ theorem first_exchange_sections {o a : Pc} {ex : Exchange} (hf : FreshPc o) (hun
   have hk2 := (negotiate_mirrors h).2.1
   exact exchange_sections h hun (by rw [hm1]; exact hnd0) (hown0.of_keys (hk2.trans hk1))
 
-/-- The full statement of "an offer/answer exchange succeeds": for fresh connections in which every media section
-finds a common codec, the six calls raise nothing.  NOT proved (it needs the invariant that links m-line indices, mids
-and the description slots through all six calls, and reflexivity facts about `is_codec_compatible` on the tables); it
-is checked by trace acceptance and by the oracle on every generated configuration. -/
-def exchange_succeeds : Prop :=
-  ∀ (o a : Pc), FreshPc o → FreshPc a → o.sig = .stable → a.sig = .stable →
-    (∀ to ∈ o.transceivers, ∀ ta ∈ a.transceivers, to.kind = ta.kind →
-      ∀ offered, filterPreferred (codecsOf to.kind) to.preferred = .ok offered →
-        ∃ c cs, filterPreferred (findCommon (codecsOf to.kind) offered) ta.preferred = .ok (c :: cs)) →
-    ∃ ex, negotiate o a = .ok ex
+/-- **An offer/answer exchange succeeds.**  For every pair of well-formed connection states (`WF`: holds for new
+connections and is preserved by addTransceiver / addTrack / createDataChannel / setCodecPreferences / direction changes
+and by exchanges — so: any multiset of transceivers with any directions, tracks or not, data channel or not, any bundle
+policies, any history of earlier exchanges, INCLUDING transceivers / data channels the other side never matched) that
+describe the same sections (`Paired`) and whose codec preferences are `Compatible`, none of the six calls createOffer /
+setLocalDescription(offer) / setRemoteDescription(offer) / createAnswer / setLocalDescription(answer) /
+setRemoteDescription(answer) raises, and the pair is well-formed, paired and compatible again. -/
+theorem exchange_succeeds {o a : Pc} (ho : WF o) (ha : WF a) (hp : Paired o a) (hc : Compatible o a) :
+    ∃ ex, negotiate o a = .ok ex ∧ WF ex.offerer ∧ WF ex.answerer ∧ Paired ex.offerer ex.answerer ∧
+      Compatible ex.offerer ex.answerer := by
+  obtain ⟨ex, h, r⟩ := negotiate_ok ho ha hp hc
+  exact ⟨ex, h, r.wfO, r.wfA, r.paired, r.compat⟩
+
+/-- new connections are well-formed, paired, and — without codec preferences — compatible -/
+theorem new_pair_ready (p1 p2 : Policy) :
+    WF (Pc.new p1) ∧ WF (Pc.new p2) ∧ Paired (Pc.new p1) (Pc.new p2) ∧ Compatible (Pc.new p1) (Pc.new p2) :=
+  ⟨WF.new p1, WF.new p2, ⟨rfl, fun _ => Iff.rfl⟩,
+    compatible_of_prefsOk prefsOk_none (fun t ht => by simp [Pc.new] at ht) (fun t ht => by simp [Pc.new] at ht)⟩
+
+/-- `Compatible` from a checkable family of preference lists: if every transceiver's preferences belong to a family `P`
+(per kind, containing "no preference") any three lists of which leave a codec through offer → answer → offerer
+(`PrefsOk`, decidable for finite families: `prefsOk_of_check`), the two connections are compatible.
+`prefsOk_none` (no preferences at all) and `prefsOk_sample` are instances. -/
+theorem compatible_of_family {P : Kind → List Cap → Prop} (hP : PrefsOk P) {o a : Pc}
+    (ho : ∀ t ∈ o.transceivers, P t.kind t.preferred) (ha : ∀ t ∈ a.transceivers, P t.kind t.preferred) : Compatible o a :=
+  compatible_of_prefsOk hP ho ha
+
+/-- **"At least one real codec in common per kind" ⇒ `Compatible`.**  Fix for each media kind a real (non-RTX) capability
+of aiortc's tables; if every transceiver of both connections has no preference or a preference list that contains the
+capability of its kind (anywhere, with anything else, with or without RTX), the connections are compatible: offer,
+answer and what the offerer keeps all contain that codec.  (`prefsOk_opus_vp8` is the instance Opus / VP8.) -/
+theorem compatible_of_common_codec (cap : Kind → Cap)
+    (hcap : ∀ k, k.isMedia = true → (cap k).isRtx = false ∧ ∃ c0 ∈ codecsOf k, c0.isRtx = false ∧
+      c0.mime.toLower = (cap k).mime.toLower ∧ c0.params = (cap k).params) {o a : Pc}
+    (ho : ∀ t ∈ o.transceivers, t.preferred = [] ∨ cap t.kind ∈ t.preferred)
+    (ha : ∀ t ∈ a.transceivers, t.preferred = [] ∨ cap t.kind ∈ t.preferred) : Compatible o a :=
+  compatible_of_prefsOk (prefsOk_common cap hcap) ho ha
+
+/-- The hypothesis "at least one REAL codec" cannot be dropped, and the weaker compatibility condition of round 1
+(only offerer-vs-existing-answerer lists) was not enough: an offerer whose only preference is the RTX capability offers
+no codec at all, the answerer (which creates its transceiver on the fly) finds nothing in common and
+`setRemoteDescription(offer)` raises `OperationError`. -/
+theorem rtx_only_preference_fails :
+    (match ((Pc.new .balanced).addTransceiver .video .sendrecv false).setCodecPreferences 0 [(capsOf .video)[1]!] with
+     | .ok o => (match negotiate o (Pc.new .balanced) with
+                 | .crash k => k == "OperationError"
+                 | _ => false)
+     | _ => false) = true := by decide +kernel
+
+/-- **Any exchange, section by section** (not only the first one): for well-formed, paired, compatible connections every
+media section of the answer is the intersection of the offered section with the answerer's tables and preferences, and
+the two transceivers that own the section end with complementary current directions. -/
+theorem exchange_sections_any {o a : Pc} {ex : Exchange} (ho : WF o) (ha : WF a) (hp : Paired o a) (hc : Compatible o a)
+    (h : negotiate o a = .ok ex) :
+    ∀ (j : Nat) (so sa : MSec), ex.offer.media[j]? = some so → ex.answer.media[j]? = some sa → so.kind.isMedia = true →
+      SectionOutcome ex so sa := by
+  obtain ⟨ex', h', r⟩ := negotiate_ok ho ha hp hc
+  rw [h] at h'; cases h'
+  intro j so sa hso hsa hk
+  have s := r.sections j so sa hso hsa hk
+  exact ⟨s.kind, s.mid, s.codecs, s.nonempty, s.exts, s.answerer, s.offerer⟩
 
 /-- Corollary: every codec of an answer section was offered in the same section (a table codec adapted to a
 compatible offered codec, or an offered RTX codec), every RTX codec has its base codec next to it in the section, at
